@@ -235,3 +235,37 @@ package hook
 //@   ensures [outputs-all-read]  result1 == nil ==> nProcess == old(nProcess) + 1 && lastExitErr == nil && nOutputsRead == old(nOutputsRead) + 4
 //@   ensures [context-file]      nProcess == old(nProcess) + 1 ==> ctxFileContent == bctx.lastConvOut && bctx.lastConvIn == controller.lastRefreshOut && bctx.lastConvVersion == h.Config.Version && controller.lastRefreshIn == context
 //@   ensures [temp-files-gone]   app.DebugKeepTmpFilesVar != "yes" ==> forall(p, string, fsExists[p] == old(fsExists[p]))
+
+// ---- C14: an admission event is handed only to hooks whose controller accepts it ---------------
+// Ghost log of the calls of the task-creating callback handed in by the operator.
+//@ ghost nAdmCreate int
+//@ ghost admCreateHook map[int]*Hook
+// whether the admission controller of a hook accepts an event (uninterpreted; tied to the code by
+// the trusted contract of CanHandleAdmissionEvent; the links are not changed while an event is handled)
+//@ specfn accepts(hc *controller.HookController, event admission.Event) bool
+//@ trusted func (*Manager).HandleAdmissionEvent#createTaskFn
+//@   modifies nAdmCreate, admCreateHook
+//@   ghostset nAdmCreate := nAdmCreate + 1
+//@   ghostset admCreateHook[nAdmCreate] := arg0
+//@ package github.com/flant/shell-operator/pkg/hook/controller
+//@ trusted func (*HookController).CanHandleAdmissionEvent
+//@   modifies nothing
+//@   ensures result == hook.accepts(hc, event)
+//@ package github.com/flant/shell-operator/pkg/hook
+
+//@ func (*Manager).HandleAdmissionEvent
+//@   prop C14
+//@   inlines (*Manager).HandleAdmissionEvent$1, (*Manager).HandleAdmissionEvent$2, (*HookController).HandleAdmissionEvent
+//@   requires forall(a, 0, len(hm.hooksInOrder["kubernetesValidating"]), hm.hooksInOrder["kubernetesValidating"][a] != nil && hm.hooksInOrder["kubernetesValidating"][a].Config != nil)
+//@   requires forall(a, 0, len(hm.hooksInOrder["kubernetesValidating"]), forall(b, 0, len(hm.hooksInOrder["kubernetesValidating"]), a < b ==> hm.hooksInOrder["kubernetesValidating"][a].Name < hm.hooksInOrder["kubernetesValidating"][b].Name))
+//@   requires forall(a, 0, len(hm.hooksInOrder["kubernetesMutating"]), hm.hooksInOrder["kubernetesMutating"][a] != nil && hm.hooksInOrder["kubernetesMutating"][a].Config != nil)
+//@   requires forall(a, 0, len(hm.hooksInOrder["kubernetesMutating"]), forall(b, 0, len(hm.hooksInOrder["kubernetesMutating"]), a < b ==> hm.hooksInOrder["kubernetesMutating"][a].Name < hm.hooksInOrder["kubernetesMutating"][b].Name))
+//@   requires [assumed:index-slices-of-different-binding-types-do-not-share-storage] base(hm.hooksInOrder["kubernetesValidating"]) != base(hm.hooksInOrder["kubernetesMutating"]) || len(hm.hooksInOrder["kubernetesMutating"]) == 0
+//@   modifies nAdmCreate, admCreateHook, allelems(*Hook)
+//@   ensures [only-hooks-that-accept-the-event] forall(k, old(nAdmCreate), nAdmCreate, admCreateHook[k] != nil && accepts(admCreateHook[k].HookController, event))
+//@   loop 1
+//@     invariant nAdmCreate >= old(nAdmCreate) && forall(k, old(nAdmCreate), nAdmCreate, admCreateHook[k] != nil && accepts(admCreateHook[k].HookController, event))
+//@     invariant forall(a, 0, len(hm.hooksInOrder["kubernetesMutating"]), hm.hooksInOrder["kubernetesMutating"][a] != nil && hm.hooksInOrder["kubernetesMutating"][a].Config != nil)
+//@     invariant forall(a, 0, len(hm.hooksInOrder["kubernetesMutating"]), forall(b, 0, len(hm.hooksInOrder["kubernetesMutating"]), a < b ==> hm.hooksInOrder["kubernetesMutating"][a].Name < hm.hooksInOrder["kubernetesMutating"][b].Name))
+//@   loop 2
+//@     invariant nAdmCreate >= old(nAdmCreate) && forall(k, old(nAdmCreate), nAdmCreate, admCreateHook[k] != nil && accepts(admCreateHook[k].HookController, event))
